@@ -100,7 +100,19 @@ TLoad ==
      /\ Report(l, "P:C05:load", IF e.err # "" \/ e.pan # "" THEN {1} ELSE {})
      /\ IF e.err = "" /\ e.pan = "" THEN LoadOwn ELSE inst' = NoInst
 
-TNext == UNCHANGED iters /\ (TNew \/ TTable \/ TTableErr \/ TStat \/ TObsK \/ TObsQ \/ TLoad)
+TModes ==
+  /\ Ev("modes")
+  /\ inst' = NoInst
+  /\ LET e == Trace[l]
+         b == ModesBad(e) IN
+     /\ Report(l, "W:floor", b.witness)
+     /\ Report(l, "P:C08:outcome", b.build)
+     /\ Report(l, "P:C13:refine", b.refine)
+     /\ Report(l, "P:C13:exact", b.exact)
+     /\ Report(l, "P:C13:onkeys", b.onkeys)
+     /\ LayerM => Report(l, "M:modes", ModesDrift(e))
+
+TNext == UNCHANGED iters /\ (TNew \/ TTable \/ TTableErr \/ TStat \/ TObsK \/ TObsQ \/ TLoad \/ TModes)
 
 \* every line consumed: l - 1 = Len(Trace) in the last state
 Accepted == TLCGet("stats").diameter - 1 = Len(Trace)
